@@ -165,44 +165,46 @@ end code
 section schemes
 variable {F : Type} [Field F] [LinearOrder F] [IsStrictOrderedRing F]
 
+lemma one_add_nuC {K G : F} (hK : 0 < K) (hG : 0 < G) :
+    (1 : F) + ((3 : F) * K - (2 : F) * G) / ((2 : F) * G + (6 : F) * K) = 9 * K / (2 * G + 6 * K) := by
+  field_simp; ring
+lemma one_sub_two_nuC {K G : F} (hK : 0 < K) (hG : 0 < G) :
+    (1 : F) - (2 : F) * (((3 : F) * K - (2 : F) * G) / ((2 : F) * G + (6 : F) * K)) = 6 * G / (2 * G + 6 * K) := by
+  field_simp; ring
 /-- KGModuli::ToYoungNu followed by the `young/3/(1-2ν)`, `young/2/(1+ν)` of the schemes -/
 lemma rtK1 {K G : F} (hK : 0 < K) (hG : 0 < G) :
     (2 : F) * G * ((1 : F) + ((3 : F) * K - (2 : F) * G) / ((2 : F) * G + (6 : F) * K)) / (3 : F)
       / ((1 : F) - (2 : F) * (((3 : F) * K - (2 : F) * G) / ((2 : F) * G + (6 : F) * K))) = K := by
   have h : (2 : F) * G + 6 * K ≠ 0 := by positivity
   have hK' := hK.ne'; have hG' := hG.ne'
-  have h9 : (2 : F) * G + 6 * K - 2 * (3 * K - 2 * G) ≠ 0 := by ring_nf; positivity
-  have h8 : (2 : F) * G + 6 * K + (3 * K - 2 * G) ≠ 0 := by ring_nf; positivity
-  rw [show (1 : F) - 2 * ((3 * K - 2 * G) / (2 * G + 6 * K)) = (2 * G + 6 * K - 2 * (3 * K - 2 * G)) / (2 * G + 6 * K) by field_simp] <;>
-  field_simp <;> ring
+  simp only [one_add_nuC hK hG, one_sub_two_nuC hK hG]
+  field_simp
+  try ring
 lemma rtG1 {K G : F} (hK : 0 < K) (hG : 0 < G) :
     (2 : F) * G * ((1 : F) + ((3 : F) * K - (2 : F) * G) / ((2 : F) * G + (6 : F) * K)) / (2 : F)
       / ((1 : F) + ((3 : F) * K - (2 : F) * G) / ((2 : F) * G + (6 : F) * K)) = G := by
   have h : (2 : F) * G + 6 * K ≠ 0 := by positivity
   have hK' := hK.ne'; have hG' := hG.ne'
-  have h9 : (2 : F) * G + 6 * K - 2 * (3 * K - 2 * G) ≠ 0 := by ring_nf; positivity
-  have h8 : (2 : F) * G + 6 * K + (3 * K - 2 * G) ≠ 0 := by ring_nf; positivity
-  rw [show (1 : F) - 2 * ((3 * K - 2 * G) / (2 * G + 6 * K)) = (2 * G + 6 * K - 2 * (3 * K - 2 * G)) / (2 * G + 6 * K) by field_simp] <;>
-  field_simp <;> ring
+  simp only [one_add_nuC hK hG, one_sub_two_nuC hK hG]
+  field_simp
+  try ring
 /-- KGModuli::ToYoungNu followed by YoungNuModuli::ToKG -/
 lemma rtK2 {K G : F} (hK : 0 < K) (hG : 0 < G) :
     (2 : F) * G * ((1 : F) + ((3 : F) * K - (2 : F) * G) / ((2 : F) * G + (6 : F) * K))
       / ((3 : F) * ((1 : F) - (2 : F) * (((3 : F) * K - (2 : F) * G) / ((2 : F) * G + (6 : F) * K)))) = K := by
   have h : (2 : F) * G + 6 * K ≠ 0 := by positivity
   have hK' := hK.ne'; have hG' := hG.ne'
-  have h9 : (2 : F) * G + 6 * K - 2 * (3 * K - 2 * G) ≠ 0 := by ring_nf; positivity
-  have h8 : (2 : F) * G + 6 * K + (3 * K - 2 * G) ≠ 0 := by ring_nf; positivity
-  rw [show (1 : F) - 2 * ((3 * K - 2 * G) / (2 * G + 6 * K)) = (2 * G + 6 * K - 2 * (3 * K - 2 * G)) / (2 * G + 6 * K) by field_simp] <;>
-  field_simp <;> ring
+  simp only [one_add_nuC hK hG, one_sub_two_nuC hK hG]
+  field_simp
+  try ring
 lemma rtG2 {K G : F} (hK : 0 < K) (hG : 0 < G) :
     (2 : F) * G * ((1 : F) + ((3 : F) * K - (2 : F) * G) / ((2 : F) * G + (6 : F) * K))
       / ((2 : F) * ((1 : F) + ((3 : F) * K - (2 : F) * G) / ((2 : F) * G + (6 : F) * K))) = G := by
   have h : (2 : F) * G + 6 * K ≠ 0 := by positivity
   have hK' := hK.ne'; have hG' := hG.ne'
-  have h9 : (2 : F) * G + 6 * K - 2 * (3 * K - 2 * G) ≠ 0 := by ring_nf; positivity
-  have h8 : (2 : F) * G + 6 * K + (3 * K - 2 * G) ≠ 0 := by ring_nf; positivity
-  rw [show (1 : F) - 2 * ((3 * K - 2 * G) / (2 * G + 6 * K)) = (2 * G + 6 * K - 2 * (3 * K - 2 * G)) / (2 * G + 6 * K) by field_simp] <;>
-  field_simp <;> ring
+  simp only [one_add_nuC hK hG, one_sub_two_nuC hK hG]
+  field_simp
+  try ring
 lemma rtE {K G : F} (hK : 0 < K) (hG : 0 < G) :
     (2 : F) * G * ((1 : F) + ((3 : F) * K - (2 : F) * G) / ((2 : F) * G + (6 : F) * K)) = youngOf K G := by
   have h : (2 : F) * G + 6 * K ≠ 0 := by positivity
@@ -220,31 +222,63 @@ lemma codeKof (E ν : F) : E / (3 : F) / ((1 : F) - (2 : F) * ν) = kOf E ν := 
 lemma codeGof (E ν : F) : E / (2 : F) / ((1 : F) + ν) = gOf E ν := by
   unfold gOf; rw [div_div]
 
+/-- core identity of the two-phase Mori–Tanaka estimate with reference modulus `t` -/
+lemma mt_core {K0 K1 t f : F} (hK0 : 0 < K0) (hK1 : 0 < K1) (ht : 0 < t) (hf0 : 0 ≤ f) (hf1 : f ≤ 1) :
+    K0 + f * (K1 - K0) / ((1 : F) + ((1 : F) - f) * (K1 - K0) / (K0 + t))
+      = ((1 - f) / (K0 + t) + f / (K1 + t))⁻¹ - t := by
+  have h1 : 0 ≤ 1 - f := by linarith
+  have hP : 0 < f * K0 + (1 - f) * K1 + t := by positivity
+  have a : K0 + t ≠ 0 := by positivity
+  have b : K1 + t ≠ 0 := by positivity
+  have e1 : (1 : F) + (1 - f) * (K1 - K0) / (K0 + t) = (f * K0 + (1 - f) * K1 + t) / (K0 + t) := by
+    field_simp; ring
+  have e2 : (1 - f) / (K0 + t) + f / (K1 + t) = (f * K0 + (1 - f) * K1 + t) / ((K0 + t) * (K1 + t)) := by
+    field_simp; ring
+  rw [e1, e2, inv_div]
+  have hP' := hP.ne'
+  field_simp
+  ring
 /-- Mori–Tanaka, spheres, as written in computeSphereMoriTanakaScheme -/
 lemma mtK {K0 G0 K1 f : F} (hK0 : 0 < K0) (hG0 : 0 < G0) (hK1 : 0 < K1) (hf0 : 0 ≤ f) (hf1 : f ≤ 1) :
     K0 + f * (K1 - K0) / ((1 : F) + ((1 : F) - f) * (K1 - K0) / (K0 + (4 : F) * G0 / (3 : F)))
       = hs ![1 - f, f] ![K0, K1] (Ks3 G0) := by
-  rw [hs_fin2]; unfold Ks3
-  have h1 : 0 ≤ 1 - f := by linarith
-  have a : K0 + 4 * G0 / 3 ≠ 0 := by positivity
-  have a' : K0 + 4 / 3 * G0 ≠ 0 := by positivity
+  rw [hs_fin2, mt_core hK0 hK1 (by positivity) hf0 hf1]
+  have : (4 : F) * G0 / 3 = Ks3 G0 := by unfold Ks3; ring
+  rw [this]
+lemma mtG {K0 G0 G1 f : F} (hK0 : 0 < K0) (hG0 : 0 < G0) (hG1 : 0 < G1) (hf0 : 0 ≤ f) (hf1 : f ≤ 1) :
+    G0 + f * (G1 - G0) / ((1 : F) + ((1 : F) - f) * (G1 - G0) /
+        (G0 + G0 * ((9 : F) * K0 + (8 : F) * G0) / (6 : F) / (K0 + (2 : F) * G0)))
+      = hs ![1 - f, f] ![G0, G1] (H3 K0 G0) := by
+  have : G0 * ((9 : F) * K0 + 8 * G0) / 6 / (K0 + 2 * G0) = H3 K0 G0 := by unfold H3; rw [div_div]
+  rw [this, hs_fin2, mt_core hG0 hG1 (H3_pos hK0 hG0) hf0 hf1]
+/-- dilute scheme, spheres, as written in computeSphereDiluteScheme -/
+lemma dilK {K0 G0 K1 f : F} (hK0 : 0 < K0) (hG0 : 0 < G0) (hK1 : 0 < K1) :
+    K0 + f * (K1 - K0) / ((1 : F) + (3 : F) * K0 / ((3 : F) * K0 + (4 : F) * G0) * (K1 - K0) / K0)
+      = K0 + f * (K1 - K0) * sphAk K0 G0 K1 := by
+  unfold sphAk Ks3
+  have a : (3 : F) * K0 + 4 * G0 ≠ 0 := by positivity
   have b : K1 + 4 / 3 * G0 ≠ 0 := by positivity
-  have d : (K0 + 4 * G0 / 3) + (1 - f) * (K1 - K0) ≠ 0 := by
-    have : 0 < f * K0 + (1 - f) * K1 + 4 * G0 / 3 := by positivity
-    intro h; nlinarith
-  have e : (1 - f) / (K0 + 4 / 3 * G0) + f / (K1 + 4 / 3 * G0) ≠ 0 := by
-    rcases h1.lt_or_eq with h | h
-    · have : 0 < (1 - f) / (K0 + 4 / 3 * G0) + f / (K1 + 4 / 3 * G0) := by positivity
-      exact this.ne'
-    · have hf : f = 1 := by linarith
-      rw [hf]; norm_num; positivity
-  have d' : (1 : F) + (1 - f) * (K1 - K0) / (K0 + 4 * G0 / 3) ≠ 0 := by
-    rw [show (1 : F) + (1 - f) * (K1 - K0) / (K0 + 4 * G0 / 3)
-        = ((K0 + 4 * G0 / 3) + (1 - f) * (K1 - K0)) / (K0 + 4 * G0 / 3) by field_simp]
-    exact div_ne_zero d a
-  rw [eq_sub_iff_add_eq, eq_inv_iff_mul_eq_one₀ e]
-  field_simp
-  ring
+  have hK0' := hK0.ne'
+  have e1 : (1 : F) + 3 * K0 / (3 * K0 + 4 * G0) * (K1 - K0) / K0 = (3 * K1 + 4 * G0) / (3 * K0 + 4 * G0) := by
+    field_simp; ring
+  have d : (3 : F) * K1 + 4 * G0 ≠ 0 := by positivity
+  rw [e1]; field_simp
+lemma dilG {K0 G0 G1 f : F} (hK0 : 0 < K0) (hG0 : 0 < G0) (hG1 : 0 < G1) :
+    G0 + f * (G1 - G0) / ((1 : F) + (6 : F) * (K0 + (2 : F) * G0) / (5 : F) / ((3 : F) * K0 + (4 : F) * G0) * (G1 - G0) / G0)
+      = G0 + f * (G1 - G0) * sphAg K0 G0 G1 := by
+  unfold sphAg H3
+  have a : (3 : F) * K0 + 4 * G0 ≠ 0 := by positivity
+  have a2 : K0 + 2 * G0 ≠ 0 := by positivity
+  have hG0' := hG0.ne'
+  have e1 : (1 : F) + 6 * (K0 + 2 * G0) / 5 / (3 * K0 + 4 * G0) * (G1 - G0) / G0
+      = (6 * (K0 + 2 * G0) * G1 + G0 * (9 * K0 + 8 * G0)) / (5 * G0 * (3 * K0 + 4 * G0)) := by
+    field_simp; ring
+  have e2 : (G0 + G0 * (9 * K0 + 8 * G0) / (6 * (K0 + 2 * G0))) / (G1 + G0 * (9 * K0 + 8 * G0) / (6 * (K0 + 2 * G0)))
+      = (5 * G0 * (3 * K0 + 4 * G0)) / (6 * (K0 + 2 * G0) * G1 + G0 * (9 * K0 + 8 * G0)) := by
+    have d : (6 : F) * (K0 + 2 * G0) * G1 + G0 * (9 * K0 + 8 * G0) ≠ 0 := by positivity
+    have d' : G1 + G0 * (9 * K0 + 8 * G0) / (6 * (K0 + 2 * G0)) ≠ 0 := by positivity
+    rw [div_eq_div_iff d' d]; field_simp; ring
+  rw [e1, e2, mul_div_assoc', div_div_eq_mul_div]
 end schemes
 
 end TfelVerif.C25.Lemmas
